@@ -309,6 +309,58 @@ func checkTriple(r *kit.Run, t Triple) packedIDs {
 	return res
 }
 
+// checkTripleLight: the primary constructors of an element triple, their
+// decoders, the typed accessors and the text round trips (no secondary paths).
+func checkTripleLight(r *kit.Run, t Triple) packedIDs {
+	r.Case("triple|"+t.String(), t.Ref >= 2 || t.Ver >= 2)
+	var res packedIDs
+	var pan interface{}
+	func() {
+		defer func() {
+			if x := recover(); x != nil {
+				pan = x
+			}
+		}()
+		switch t.Kind {
+		case "node":
+			id := osm.NodeID(t.Ref)
+			res.obj, res.el, res.fe = int64(id.ObjectID(t.Ver)), int64(id.ElementID(t.Ver)), int64(id.FeatureID())
+		case "way":
+			id := osm.WayID(t.Ref)
+			res.obj, res.el, res.fe = int64(id.ObjectID(t.Ver)), int64(id.ElementID(t.Ver)), int64(id.FeatureID())
+		case "relation":
+			id := osm.RelationID(t.Ref)
+			res.obj, res.el, res.fe = int64(id.ObjectID(t.Ver)), int64(id.ElementID(t.Ver)), int64(id.FeatureID())
+		default:
+			kit.Fatalf("checkTripleLight: not an element kind: %v", t)
+		}
+	}()
+	if pan != nil {
+		r.Violation("construct-panic/primary", fmt.Sprintf("primary constructors panicked for %v: %v", t, pan), tripleCase(t))
+		return packedIDs{}
+	}
+	res.hasObj, res.hasEl, res.hasFe = true, true, true
+	bump(r, "paths_light")
+	if got, p := decodeObject(osm.ObjectID(res.obj)); p != nil || got != t {
+		r.Violation("decode/object/primary", fmt.Sprintf("object id of %v = %#x decodes to %v (panic=%v)", t, res.obj, got, p), tripleCase(t))
+	}
+	if got, p := decodeElement(osm.ElementID(res.el)); p != nil || got != t {
+		r.Violation("decode/element/primary", fmt.Sprintf("element id of %v = %#x decodes to %v (panic=%v)", t, res.el, got, p), tripleCase(t))
+	}
+	if got, p := decodeFeature(osm.FeatureID(res.fe)); p != nil || got != (Triple{t.Kind, t.Ref, 0}) {
+		r.Violation("decode/feature/primary", fmt.Sprintf("feature id of %v = %#x decodes to %v (panic=%v)", t, res.fe, got, p), tripleCase(t))
+	}
+	if v, p := call(func() int64 { return int64(osm.ElementID(res.el).FeatureID()) }); p != nil || v != res.fe {
+		r.Violation("paths-disagree/feature/ElementID.FeatureID", fmt.Sprintf("ElementID.FeatureID of %v = %#x (panic=%v), feature id = %#x", t, v, p, res.fe), tripleCase(t))
+	}
+	if v, p := call(func() int64 { return int64(osm.FeatureID(res.fe).ElementID(t.Ver)) }); p != nil || v != res.el {
+		r.Violation("paths-disagree/element/FeatureID.ElementID", fmt.Sprintf("FeatureID.ElementID of %v = %#x (panic=%v), element id = %#x", t, v, p, res.el), tripleCase(t))
+	}
+	roundTrip(r, t, "object", res.obj)
+	roundTrip(r, t, "element", res.el)
+	return res
+}
+
 func stringOf(parser string, v int64) (s string, p interface{}) {
 	defer func() {
 		if x := recover(); x != nil {
@@ -396,13 +448,46 @@ func checkInjectivePair(r *kit.Run, a Triple, pa packedIDs, b Triple, pb packedI
 }
 
 func runTriples(r *kit.Run, thorough bool) {
-	refs, vers := fullRefs(), fullVers()
+	refs, vers := tripleRefs(), tripleVers()
 	ts := triplesOver(refs, vers, allKinds)
-	r.Set("triple_refs", len(refs))
-	r.Set("triple_versions", len(vers))
-	r.Set("triples", len(ts))
+	// "every version in [0, 2^16)": the full version range on a few refs of every
+	// element kind (not only the boundary versions). Quick: primary constructors,
+	// decoders and text round trip only (checkTripleLight); thorough: every path.
+	sweepRefs := []int64{0x5555555555}
+	if thorough {
+		sweepRefs = []int64{0, 1, 1 << 39, refLimit - 1, 0x5555555555, 0xAAAAAAAAAA, 999999999999, 1000000000000}
+	}
+	have := make(map[Triple]bool, len(ts))
+	for _, t := range ts {
+		have[t] = true
+	}
+	nFull := len(ts)
+	for _, k := range elementKinds {
+		for _, ref := range sweepRefs {
+			for v := 0; v < verLimit; v++ {
+				t := Triple{k, ref, v}
+				if !have[t] {
+					ts = append(ts, t)
+				}
+			}
+		}
+	}
+	if thorough {
+		nFull = len(ts)
+	}
+	r.Set("triple_version_sweep_refs", len(sweepRefs))
+	r.Set("triple_version_sweep_added", len(ts)-len(have))
 	res := make([]packedIDs, len(ts))
-	r.Par(len(ts), func(i int) { res[i] = checkTriple(r, ts[i]) })
+	r.Par(nFull, func(i int) { res[i] = checkTriple(r, ts[i]) })
+	if nFull < len(ts) {
+		const chunk = 1024
+		rest := len(ts) - nFull
+		r.Par((rest+chunk-1)/chunk, func(c int) {
+			for i := nFull + c*chunk; i < len(ts) && i < nFull+(c+1)*chunk; i++ {
+				res[i] = checkTripleLight(r, ts[i])
+			}
+		})
+	}
 	for _, i := range []int{len(ts) / 7, len(ts) / 2} {
 		r.Sample(tripleCase(ts[i]))
 	}
